@@ -1,6 +1,7 @@
 package main
 
 import (
+	"encoding/json"
 	"fmt"
 	"net"
 	"net/netip"
@@ -23,6 +24,30 @@ func init() {
 }
 
 func tok(v any) string { return showField(reflect.ValueOf(v)) }
+
+// lastResult: the value the API returned last, rendered afterwards with String() and JSON (C04)
+var lastResult any
+
+func keep(v any) { lastResult = v }
+
+func render(v any) (out string) {
+	defer func() {
+		if e := recover(); e != nil {
+			out = "panic"
+		}
+	}()
+	if v == nil {
+		return "ok"
+	}
+	_ = fmt.Sprintf("%v", v)
+	if s, ok := v.(fmt.Stringer); ok {
+		_ = s.String()
+	}
+	if _, err := json.Marshal(v); err != nil {
+		return "ok" // an error is a value, not a crash
+	}
+	return "ok"
+}
 
 func valsOf(vs ...any) string {
 	ts := []string{}
@@ -159,6 +184,7 @@ var opDefs = []opDef{
 			if err != nil {
 				return "err"
 			}
+			keep(d)
 			addr := "invalid"
 			if d.Address.IsValid() {
 				addr = d.Address.String()
@@ -175,6 +201,7 @@ var opDefs = []opDef{
 			if err != nil {
 				return "err"
 			}
+			keep(res)
 			return valsOf(res.SerialNumber, res.Succeeded)
 		}
 	}},
@@ -220,6 +247,7 @@ var opDefs = []opDef{
 			if err != nil {
 				return "err"
 			}
+			keep(t)
 			return valsOf(t.SerialNumber, t.DateTime)
 		}
 	}},
@@ -233,6 +261,7 @@ var opDefs = []opDef{
 			if err != nil {
 				return "err"
 			}
+			keep(res)
 			return valsOf(res.SerialNumber, res.DateTime)
 		}
 	}},
@@ -243,6 +272,7 @@ var opDefs = []opDef{
 			if err != nil {
 				return "err"
 			}
+			keep(s)
 			return valsOf(s.SerialNumber, s.Door, uint8(s.ControlState), s.Delay)
 		}
 	}},
@@ -255,6 +285,7 @@ var opDefs = []opDef{
 			if err != nil {
 				return "err"
 			}
+			keep(s)
 			return valsOf(s.SerialNumber, s.Door, uint8(s.ControlState), s.Delay)
 		}
 	}},
@@ -264,6 +295,7 @@ var opDefs = []opDef{
 			if err != nil {
 				return "err"
 			}
+			keep(s)
 			return statusTokens(s)
 		}
 	}},
@@ -285,6 +317,7 @@ var opDefs = []opDef{
 			} else if c == nil {
 				return "nil"
 			}
+			keep(c)
 			return cardTokens(c)
 		}
 	}},
@@ -297,6 +330,7 @@ var opDefs = []opDef{
 			} else if c == nil {
 				return "nil"
 			}
+			keep(c)
 			return cardTokens(c)
 		}
 	}},
@@ -344,6 +378,7 @@ var opDefs = []opDef{
 			} else if p == nil {
 				return "nil"
 			}
+			keep(p)
 			w := p.Weekdays
 			s := p.Segments
 			return valsOf(p.ID, p.LinkedProfileID, p.From, p.To, w[time.Monday], w[time.Tuesday], w[time.Wednesday], w[time.Thursday],
@@ -438,6 +473,7 @@ var opDefs = []opDef{
 			} else if e == nil {
 				return "nil"
 			}
+			keep(e)
 			return valsOf(e.SerialNumber, e.Index, e.Type, e.Granted, e.Door, e.Direction, e.CardNumber, e.Timestamp, e.Reason)
 		}
 	}},
@@ -447,6 +483,7 @@ var opDefs = []opDef{
 			if err != nil {
 				return "err"
 			}
+			keep(e)
 			return valsOf(e.SerialNumber, e.Index)
 		}
 	}},
@@ -457,6 +494,7 @@ var opDefs = []opDef{
 			if err != nil {
 				return "err"
 			}
+			keep(e)
 			return valsOf(e.SerialNumber, e.Index, e.Changed)
 		}
 	}},
@@ -481,6 +519,7 @@ var opDefs = []opDef{
 			if err != nil {
 				return "err"
 			}
+			keep(res)
 			return valsOf(res.SerialNumber, res.Succeeded)
 		}
 	}},
@@ -704,7 +743,11 @@ func runOp(c *ctx, u uhppote.IUHPPOTE, d *fake.Driver, g cfgGen, op opDef, dev u
 	d.Calls = nil
 	d.Datagrams = arrivals
 	d.Consumed = 0
+	lastResult = nil
 	res := guard(func() string { return invoke(u) })
+	if res != "panic" && render(lastResult) == "panic" {
+		res = "panic" // the returned value cannot be rendered with String()/JSON
+	}
 	out := res
 	if res != "panic" && res != "mutated-argument" {
 		cs := []string{}
